@@ -307,6 +307,47 @@ func c05Enumerate(family string, bi int, b *c05Base, thorough bool, fn func(m *c
 				return
 			}
 		}
+	case "sparse":
+		// a page with nothing in it but a header: every page type x EVERY cell count (the pointer array of a count
+		// that does not fit runs over bytes that are all valid pointers, so no other test refuses the page first),
+		// in the place of sqlite_master's root and of every table and index root
+		if b.only != nil || len(b.img.Roots) == 0 {
+			return
+		}
+		roots := []int{1}
+		var objs []string
+		for o := range b.img.Roots {
+			objs = append(objs, o)
+		}
+		sort.Strings(objs)
+		for _, o := range objs {
+			if r := b.img.Roots[o]; r >= 2 {
+				roots = append(roots, r)
+			}
+		}
+		if !thorough && len(roots) > 3 {
+			roots = roots[:3]
+		}
+		for _, root := range roots {
+			for _, typ := range []byte{13, 5, 10, 2} {
+				for n := 0; n <= ps/2+2; n++ {
+					img := append([]byte{}, orig...)
+					pg := img[(root-1)*ps : root*ps]
+					hdr := pg
+					if root == 1 {
+						hdr = pg[100:]
+					}
+					for i := range hdr {
+						hdr[i] = 0
+					}
+					hdr[0] = typ
+					hdr[3], hdr[4] = byte(n>>8), byte(n)
+					if !emit(fmt.Sprintf("page %d := an empty page of type %d with cell count %d", root, typ, n), "sparse-page", img, "") {
+						return
+					}
+				}
+			}
+		}
 	case "chain":
 		// overflow chains that cycle with a tail (the last page points back to the k-th page of the chain)
 		// x declared payload lengths up to 2^62: a two-page, two-field corruption no single-field
@@ -791,7 +832,7 @@ type c05Shard struct {
 }
 
 func runC05(r *ev.Run) {
-	r.Rule = "base images: 5 small dbgen images (512-byte pages: two-level table and index trees, multi-page overflow chains in a rowid table, an index, a WITHOUT ROWID table and sqlite_master itself, multi-page sqlite_master; the fifth image runs the chain, field and trunc families only in the quick tier); mutants: (field) every structural field x a boundary alphabet (0, 1, +-1, 0x7f/0x80/0xff patterns, own page, every page, page count+1, 9-byte/negative varints, every serial type), (byte) every byte x 8 boundary values (x256 thorough), (chain) overflow chains whose last page points back to each page of the chain (cycle through the first page / cycle with a tail) x declared payload lengths {real, 4000, 2^20, 2^31, 2^40, 2^62}, (dag) towers of interior pages that all share their child: depth x fan-out in {8x60, 3x60, 20x2, 30x1} under every table and index whose root is a leaf, (trunc) every length multiple of 64 and around page boundaries, (sql) hostile CREATE texts in sqlite_master incl. every ASCII punctuation character at the start of a token, inside a name and at the end of the text, a 28 MB literal of doubled quotes and an expression index over a sum of 120000 terms, (field2, thorough) pairs of related fields in one page, (journal) journal header fields x lengths on real files; every mutant runs every public operation in a worker subprocess; oracle: no panic, live heap < 3 GB, < 20 s CPU per operation (a hang, an allocation or a death of the worker counts only when it comes back twice with the mutant run alone). non-trivial = mutants (all differ from the base)"
+	r.Rule = "base images: 5 small dbgen images (512-byte pages: two-level table and index trees, multi-page overflow chains in a rowid table, an index, a WITHOUT ROWID table and sqlite_master itself, multi-page sqlite_master; the fifth image runs the chain, field and trunc families only in the quick tier); mutants: (field) every structural field x a boundary alphabet (0, 1, +-1, 0x7f/0x80/0xff patterns, own page, every page, page count+1, 9-byte/negative varints, every serial type), (byte) every byte x 8 boundary values (x256 thorough), (chain) overflow chains whose last page points back to each page of the chain (cycle through the first page / cycle with a tail) x declared payload lengths {real, 4000, 2^20, 2^31, 2^40, 2^62}, (sparse) sqlite_master's root and table / index roots replaced by an empty page of every type x every cell count 0..pagesize/2+2, (dag) towers of interior pages that all share their child: depth x fan-out in {8x60, 3x60, 20x2, 30x1} under every table and index whose root is a leaf, (trunc) every length multiple of 64 and around page boundaries, (sql) hostile CREATE texts in sqlite_master incl. every ASCII punctuation character at the start of a token, inside a name and at the end of the text, a 28 MB literal of doubled quotes and an expression index over a sum of 120000 terms, (field2, thorough) pairs of related fields in one page, (journal) journal header fields x lengths on real files; every mutant runs every public operation in a worker subprocess; oracle: no panic, live heap < 3 GB, < 20 s CPU per operation (a hang, an allocation or a death of the worker counts only when it comes back twice with the mutant run alone). non-trivial = mutants (all differ from the base)"
 	bin := os.Getenv("VCHECK_BIN")
 	if bin == "" {
 		bin, _ = os.Executable()
@@ -806,7 +847,7 @@ func runC05(r *ev.Run) {
 		r.Validated(1)
 		r.StateBytes(bases[i].img.Bytes)
 	}
-	families := []string{"field", "chain", "dag", "record", "byte", "trunc", "sql"}
+	families := []string{"field", "chain", "dag", "sparse", "record", "byte", "trunc", "sql"}
 	if r.Thorough() {
 		families = append(families, "field2")
 	}
